@@ -177,6 +177,7 @@ pub fn par1_plans(th: bool, mode: Mode, cache_only: bool) -> Vec<Plan> {
         mk("SP-4", sp.clone(), true, Some(if th { 5184 } else if heavy { 300 } else { 1500 })),
         mk("KP-3", variants_kp(), true, Some(if th { 5103 } else if heavy { 500 } else { 5103 })),
         mk("KP-4", variants_kp(), true, Some(if th { 45927 } else if heavy { 500 } else { 6000 })),
+        mk("KPH-0", variants_kp(), heavy || !th, None),
     ];
     if th { p.push(mk("TM-N2.1", variants_ca(), true, None)); p.push(mk("TM-N3.1", variants_ca(), true, None)); p.push(mk("KP-5", variants_kp(), true, Some(if heavy { 5000 } else { 60000 }))); }
     p
@@ -235,6 +236,11 @@ fn plans_c01(thorough: bool, mode: Mode) -> Vec<Plan> {
         plan("KPZ-3", variants_kp(), false, &c3, mode, None),
         plan("KPZ-4", variants_kp(), true, &c3, mode, None),
         plan("KPB-6", variants_kp(), true, &c3, mode, None),
+        // hand-written knapsacks with 7 / 10 / 11 items and all their neighbours at Hamming distance 1: searches of 10^2..10^3
+        // sub-problems, every knapsack variant (rough bound x dominance x merge operator x ranking)
+        plan("KPH-0", variants_kp(), false, &c3, mode, None),
+        plan("KPH-1", variants_kp(), false, &c3, mode, None),
+        plan("KPH-2", variants_kp(), false, &c3, mode, None),
     ];
     if thorough {
         p.push(plan("KPB-7", variants_kp(), true, &c3, mode, None));
@@ -378,6 +384,9 @@ fn c09(tier: &str) -> i32 {
         plan("KP-3", variants_kp(), true, &c3, m, None),
         plan("KP-4", variants_kp(), true, &c3, m, Some(if th { 45927 } else { 10000 })),
         plan("KPB-6", variants_kp(), true, &c3, m, None),
+        plan("KPH-0", variants_kp(), false, &c3, m, None),
+        plan("KPH-1", variants_kp(), false, &c3, m, None),
+        plan("KPH-2", variants_kp(), false, &c3, m, None),
     ];
     if th {
         plans.push(plan("KPB-7", variants_kp(), true, &c3, m, None));
